@@ -46,6 +46,12 @@ def run(ctx):
     if not got:
         ctx.unknown('C12.entry', 'RunStats::from', 'borrowed', why='entry-point obligations (C11.from*) could not be instantiated')
     b, ev, bodies = roles(ctx)
+    # the half-chains the autocovariances are taken of: first and LAST n div 2 draws of every chain (shared with C11)
+    if bodies and bodies.get('split') is not None:
+        from .C11 import split as c11_split
+        got = ctx.borrow(lambda c: c11_split(c, bodies['split']), lambda oid: oid == 'C11.split')
+        if not got:
+            ctx.unknown('C12.split', 'split', 'borrowed', why='split obligation (C11.split) could not be instantiated')
     A = 'ESS (helper of split_rhat_mean_ess)'
     if b is None or not bodies or bodies.get('ess') is None:
         ctx.unknown('C12.ess', A, 'anchor', why='ESS helper of stats::split_rhat_mean_ess not located')
